@@ -40,6 +40,10 @@ pub enum Family {
     ULigero,
     MLigero,
     Brakedown,
+    /// raw `KZG10` behind the harness adapter
+    Kzg10,
+    /// `MultilinearPC` behind the harness adapter
+    Mlpc,
 }
 impl Family {
     pub fn has_degree_bounds(self) -> bool {
@@ -47,18 +51,18 @@ impl Family {
     }
     /// honours `hiding_bound` (Hyrax always hides, linear codes never)
     pub fn has_hiding(self) -> bool {
-        matches!(self, Family::Marlin | Family::Sonic | Family::Ipa | Family::Pst13)
+        matches!(self, Family::Marlin | Family::Sonic | Family::Ipa | Family::Pst13 | Family::Kzg10)
     }
     pub fn is_lincode(self) -> bool {
         matches!(self, Family::ULigero | Family::MLigero | Family::Brakedown)
     }
     /// batch_check / check_combinations are the trait defaults
     pub fn default_batch(self) -> bool {
-        matches!(self, Family::Hyrax | Family::ULigero | Family::MLigero | Family::Brakedown)
+        matches!(self, Family::Hyrax | Family::ULigero | Family::MLigero | Family::Brakedown | Family::Mlpc)
     }
     pub fn kind(self) -> PolyKind {
         match self {
-            Family::Marlin | Family::Sonic | Family::Ipa | Family::ULigero => PolyKind::Uni,
+            Family::Marlin | Family::Sonic | Family::Ipa | Family::ULigero | Family::Kzg10 => PolyKind::Uni,
             Family::Pst13 => PolyKind::Mv,
             _ => PolyKind::Ml,
         }
@@ -396,6 +400,10 @@ pub trait Scheme: 'static + Sized {
     const FAMILY: Family;
     fn name() -> String;
 
+    /// parameters built through the scheme's public constructors with non-default tuning knobs
+    fn alt_setup(_cfg: &KeyCfg, _rng: &mut dyn RngCore) -> Option<Pp<Self>> {
+        None
+    }
     // ---- scheme-specific surgery used by the fault catalogue (default: not available) ----
     /// the commitment with its degree-bound part removed
     fn comm_without_shifted(_c: &Comm<Self>) -> Option<Comm<Self>> {
@@ -448,6 +456,14 @@ pub trait Scheme: 'static + Sized {
         _z: &Self::Pt,
         _challenges: &[Self::F],
     ) -> Option<(Option<Self::F>, Option<Self::F>)> {
+        None
+    }
+    /// How many bits of the transcript bind an opening proof of this commitment to the sponge
+    /// state it was made under. None = cryptographically many (field-size challenges). The
+    /// linear-code schemes without the well-formedness check are bound only through their
+    /// t column indices in [0, n_ext_cols): at toy sizes that is a handful of bits.
+    #[cfg(feature = "full")]
+    fn transcript_binding_bits(_vk: &Vk<Self>, _c: &Comm<Self>) -> Option<f64> {
         None
     }
     /// every single-element replacement of a commitment
@@ -782,6 +798,19 @@ impl<F: PrimeField + Absorb + CurveName> Scheme for ULigeroS<F> {
         format!("uligero-{}", F::CURVE)
     }
     #[cfg(feature = "full")]
+    fn transcript_binding_bits(vk: &Vk<Self>, c: &Comm<Self>) -> Option<f64> {
+        use ark_poly_commit::linear_codes::LinCodeParametersInfo;
+        if vk.check_well_formedness() {
+            return None;
+        }
+        let m: crate::surgery::LcCommMirror<MT> = crate::surgery::to_mirror(c)?;
+        let t = crate::lincode::calculate_t::<F>(vk.sec_param(), vk.distance(), m.n_ext_cols)?;
+        Some(t as f64 * (m.n_ext_cols as f64).log2())
+    }
+    fn alt_setup(cfg: &KeyCfg, _rng: &mut dyn RngCore) -> Option<Pp<Self>> {
+        cfg.lincode.as_ref().map(|k| ark_poly_commit::linear_codes::LigeroPCParams::new(k.sec_param, k.rho_inv, k.check_well_formedness, (), (), ()))
+    }
+    #[cfg(feature = "full")]
     fn comm_variants(c: &Comm<Self>, seed: u64) -> Vec<(String, Comm<Self>)> {
         crate::surgery::lincode_comm_variants::<MT, Comm<Self>>(c, seed)
     }
@@ -819,6 +848,19 @@ impl<F: PrimeField + Absorb + CurveName> Scheme for MLigeroS<F> {
     const FAMILY: Family = Family::MLigero;
     fn name() -> String {
         format!("mligero-{}", F::CURVE)
+    }
+    #[cfg(feature = "full")]
+    fn transcript_binding_bits(vk: &Vk<Self>, c: &Comm<Self>) -> Option<f64> {
+        use ark_poly_commit::linear_codes::LinCodeParametersInfo;
+        if vk.check_well_formedness() {
+            return None;
+        }
+        let m: crate::surgery::LcCommMirror<MT> = crate::surgery::to_mirror(c)?;
+        let t = crate::lincode::calculate_t::<F>(vk.sec_param(), vk.distance(), m.n_ext_cols)?;
+        Some(t as f64 * (m.n_ext_cols as f64).log2())
+    }
+    fn alt_setup(cfg: &KeyCfg, _rng: &mut dyn RngCore) -> Option<Pp<Self>> {
+        cfg.lincode.as_ref().map(|k| ark_poly_commit::linear_codes::LigeroPCParams::new(k.sec_param, k.rho_inv, k.check_well_formedness, (), (), ()))
     }
     #[cfg(feature = "full")]
     fn comm_variants(c: &Comm<Self>, seed: u64) -> Vec<(String, Comm<Self>)> {
@@ -860,6 +902,20 @@ impl<F: PrimeField + Absorb + CurveName> Scheme for BrakedownS<F> {
         format!("brakedown-{}", F::CURVE)
     }
     #[cfg(feature = "full")]
+    fn transcript_binding_bits(vk: &Vk<Self>, c: &Comm<Self>) -> Option<f64> {
+        use ark_poly_commit::linear_codes::LinCodeParametersInfo;
+        if vk.check_well_formedness() {
+            return None;
+        }
+        let m: crate::surgery::LcCommMirror<MT> = crate::surgery::to_mirror(c)?;
+        let t = crate::lincode::calculate_t::<F>(vk.sec_param(), vk.distance(), m.n_ext_cols)?;
+        Some(t as f64 * (m.n_ext_cols as f64).log2())
+    }
+    fn alt_setup(cfg: &KeyCfg, rng: &mut dyn RngCore) -> Option<Pp<Self>> {
+        let mut rng = rng;
+        cfg.lincode.as_ref().map(|k| ark_poly_commit::linear_codes::BrakedownPCParams::default(&mut rng, 1 << cfg.num_vars.unwrap_or(1), k.check_well_formedness, (), (), ()))
+    }
+    #[cfg(feature = "full")]
     fn comm_variants(c: &Comm<Self>, seed: u64) -> Vec<(String, Comm<Self>)> {
         crate::surgery::lincode_comm_variants::<MT, Comm<Self>>(c, seed)
     }
@@ -889,6 +945,95 @@ impl<F: PrimeField + Absorb + CurveName> Scheme for BrakedownS<F> {
     }
 }
 
+pub struct KzgS<E>(PhantomData<E>);
+impl<E: Pairing + CurveName> Scheme for KzgS<E>
+where
+    E::ScalarField: Absorb,
+{
+    type F = E::ScalarField;
+    type P = UPoly<E::ScalarField>;
+    type Pt = E::ScalarField;
+    type PC = crate::adapters::Kzg10Adapter<E>;
+    const FAMILY: Family = Family::Kzg10;
+    fn name() -> String {
+        format!("kzg10-{}", E::CURVE)
+    }
+    #[cfg(feature = "full")]
+    fn proof_variants(p: &Proof<Self>, seed: u64) -> Vec<(String, Proof<Self>)> {
+        let mut out = vec![];
+        for i in 0..p.len().min(2) {
+            for (n, q) in crate::surgery::kzg_proof_variants::<E>(&p[i], seed ^ i as u64) {
+                let mut l = p.clone();
+                l[i] = q;
+                out.push((n, l));
+            }
+        }
+        if !p.is_empty() {
+            let mut l = p.clone();
+            l.pop();
+            out.push(("proofs-shorter".to_string(), l));
+            let mut l = p.clone();
+            l.push(p[0].clone());
+            out.push(("proofs-longer".to_string(), l));
+        }
+        out
+    }
+    #[cfg(feature = "full")]
+    fn comm_variants(c: &Comm<Self>, seed: u64) -> Vec<(String, Comm<Self>)> {
+        crate::surgery::sonic_comm_variants::<E>(c, seed)
+    }
+    #[cfg(feature = "full")]
+    fn vk_variants(vk: &Vk<Self>, seed: u64) -> Vec<(String, Vk<Self>)> {
+        crate::surgery::kzg_vk_variants::<E>(&vk.vk, seed).into_iter().map(|(n, k)| (n, crate::adapters::KVk { vk: k, supported_degree: vk.supported_degree, max_degree: vk.max_degree })).collect()
+    }
+    #[cfg(feature = "full")]
+    fn reference_check(vk: &Vk<Self>, comms: &[&ark_poly_commit::LabeledCommitment<Comm<Self>>], z: &Self::Pt, values: &[Self::F], proof: &Proof<Self>, _sp: &mut crate::seams::TraceSponge<Self::F>) -> Option<bool> {
+        Some(crate::refcheck::kzg_ref::<E>(&vk.vk, comms, z, values, proof))
+    }
+    #[cfg(feature = "full")]
+    fn hiding_audit(ck: &Ck<Self>, lp: &ark_poly_commit::LabeledPolynomial<Self::F, Self::P>, comm: &Comm<Self>, plain: Option<&Comm<Self>>, state: &State<Self>) -> Option<Vec<String>> {
+        plain.map(|pl| crate::hiding::kzg_audit::<E>(&ck.powers_of_gamma_g, lp, comm, pl, state))
+    }
+    #[cfg(feature = "full")]
+    fn proof_blinding_bytes(p: &Proof<Self>) -> Option<Vec<u8>> {
+        let mut b = vec![];
+        for x in p.iter() {
+            if let Some(v) = x.random_v { v.serialize_compressed(&mut b).unwrap(); }
+        }
+        if b.is_empty() { None } else { Some(b) }
+    }
+}
+pub struct MlpcS<E>(PhantomData<E>);
+impl<E: Pairing + CurveName> Scheme for MlpcS<E>
+where
+    E::ScalarField: Absorb,
+{
+    type F = E::ScalarField;
+    type P = MlPoly<E::ScalarField>;
+    type Pt = Vec<E::ScalarField>;
+    type PC = crate::adapters::MlpcAdapter<E>;
+    const FAMILY: Family = Family::Mlpc;
+    fn name() -> String {
+        format!("mlpc-{}", E::CURVE)
+    }
+    #[cfg(feature = "full")]
+    fn proof_variants(p: &Proof<Self>, seed: u64) -> Vec<(String, Proof<Self>)> {
+        crate::surgery::mlpc_proof_variants::<E>(p, seed)
+    }
+    #[cfg(feature = "full")]
+    fn comm_variants(c: &Comm<Self>, seed: u64) -> Vec<(String, Comm<Self>)> {
+        crate::surgery::mlpc_comm_variants::<E>(c, seed)
+    }
+    #[cfg(feature = "full")]
+    fn vk_variants(vk: &Vk<Self>, seed: u64) -> Vec<(String, Vk<Self>)> {
+        crate::surgery::mlpc_vk_variants::<E>(vk, seed)
+    }
+    #[cfg(feature = "full")]
+    fn reference_check(vk: &Vk<Self>, comms: &[&ark_poly_commit::LabeledCommitment<Comm<Self>>], z: &Self::Pt, values: &[Self::F], proof: &Proof<Self>, _sp: &mut crate::seams::TraceSponge<Self::F>) -> Option<bool> {
+        Some(crate::refcheck::mlpc_ref::<E>(&vk.0, comms, z, values, proof))
+    }
+}
+
 /// All trait-scheme instantiations known to the simulator.
 pub const SCHEMES: &[&str] = &[
     "marlin-bls12_381",
@@ -910,6 +1055,10 @@ pub const SCHEMES: &[&str] = &[
     "mligero-bls12_377_fr",
     "brakedown-bls12_381_fr",
     "brakedown-bls12_377_fr",
+    "kzg10-bls12_381",
+    "kzg10-bn254",
+    "mlpc-bls12_381",
+    "mlpc-bls12_377",
 ];
 
 pub fn family_of(name: &str) -> Family {
@@ -922,6 +1071,10 @@ pub fn family_of(name: &str) -> Family {
         "uligero" => Family::ULigero,
         "mligero" => Family::MLigero,
         "brakedown" => Family::Brakedown,
+        "kzg10" => Family::Kzg10,
+        "mlpc" => Family::Mlpc,
+        // bespoke driver (props/streaming.rs); shares the univariate workload builders only
+        "streaming" => Family::Kzg10,
         other => panic!("unknown scheme family {other}"),
     }
 }
@@ -951,6 +1104,10 @@ macro_rules! with_scheme {
             "mligero-bls12_377_fr" => $f::<MLigeroS<ark_bls12_377::Fr>>($($args),*),
             "brakedown-bls12_381_fr" => $f::<BrakedownS<ark_bls12_381::Fr>>($($args),*),
             "brakedown-bls12_377_fr" => $f::<BrakedownS<ark_bls12_377::Fr>>($($args),*),
+            "kzg10-bls12_381" => $f::<KzgS<ark_bls12_381::Bls12_381>>($($args),*),
+            "kzg10-bn254" => $f::<KzgS<ark_bn254::Bn254>>($($args),*),
+            "mlpc-bls12_381" => $f::<MlpcS<ark_bls12_381::Bls12_381>>($($args),*),
+            "mlpc-bls12_377" => $f::<MlpcS<ark_bls12_377::Bls12_377>>($($args),*),
             other => panic!("unknown scheme {other}"),
         }
     }};
